@@ -105,7 +105,11 @@ def obligation_id(unit, d):
             t = s2['text'][0]
             frag = t['text'][t['highlight_start'] - 1:t['highlight_end'] - 1] if len(s2['text']) == 1 else ' '.join(x['text'].strip() for x in s2['text'])
             frag = ' '.join(frag.split())
-            if len(frag) > 70:
+            if (s2.get('label') or '').startswith(('at the end of the function body', 'at this exit')):
+                # the exit a postcondition fails at is named by its label only: the text of the tail expression is code that a
+                # behaviour-preserving edit may rewrite, and the identity of a failed postcondition is (function, clause)
+                frag = s2.get('label')
+            elif len(frag) > 70:
                 frag = (s2.get('label') or 'span') + ': ' + frag[:40] + '..'
             sec += ' @ ' + frag
     ordinal = ''
